@@ -19,7 +19,8 @@ CRATES = {"c19_regex": ("witness_circuits", "verif_witness_circuits"),
           "c16_zkir": ("witness_zkir", "verif_witness_zkir"),
           "c12_chunks": ("witness_proofs", "verif_witness_proofs"),
           "c16_vk": ("witness_proofs", "verif_witness_proofs"),
-          "c01_two_proofs": ("witness_proofs", "verif_witness_proofs")}
+          "c01_two_proofs": ("witness_proofs", "verif_witness_proofs"),
+          "c12_msm": ("witness_proofs", "verif_witness_proofs")}
 
 
 def search(mode, seed, rounds):
